@@ -89,7 +89,12 @@ func (p *Prog) JS() string {
 	case "nonobject":
 		sb.WriteString("return 42;\n")
 	case "throw":
-		sb.WriteString("throw \"boom\";\n")
+		if len(p.Ops)%3 == 1 {
+			// a long diagnostic with text that is not ASCII (error texts are one token in the model)
+			sb.WriteString(fmt.Sprintf("throw \"%s\" + new Array(400).join(\"\u00e9\u4e16\");\n", strings.Repeat("x", len(p.Ops))))
+		} else {
+			sb.WriteString("throw \"boom\";\n")
+		}
 	case "loop":
 		sb.WriteString("for(;;){}\n")
 	case "emitbad":
